@@ -71,6 +71,8 @@ def check_tagiter(ctx, F, s, A):
     have = [N(f) for f in facts]
     it = s.inst["body"]["locals"][1]["ty"]
     ok_guard = any(f[0] == "cmp" and f[1] == "Lt" and f[3][0] == "len" for f in have)
+    # cursor representation: the rest of the buffer is non-empty (its length is a multiple of 8, hence >= 8)
+    ok_guard = ok_guard or any(f[0] == "cmp" and f[1] in ("Ne", "Gt") and f[2][0] == "len" and f[3] == ("c", 0) for f in have)
     if not ok_guard:
         # entailed rather than literal (e.g. `off == len -> None`, `off > len -> panic`): off < len(buffer) for the iterator's fields
         selfty = A.body.local_ty(1)
@@ -393,8 +395,8 @@ def zero_census(ctx, F, cl):
                 bad.append((k, "inline asm"))
             if t["k"] == "call":
                 p = M.callee_path(t) or ""
-                if p.endswith("<impl *const T>::add"):
-                    saw_add = True
+                if "::<impl *const T>::" in p or "::<impl *mut T>::" in p:
+                    saw_add = True          # any raw-pointer method (add / cast / sub / ..): the census reads call paths
                 if "get_unchecked" in p or p.endswith("unreachable_unchecked") or p.startswith("core::intrinsics::abort") or p == "core::intrinsics::unreachable":
                     bad.append((k, p))
                 node = F.graph.get(M.callee_key(t) or "", {})
@@ -402,6 +404,6 @@ def zero_census(ctx, F, cl):
                     bad.append((k, "FFI " + p))
     ctx.check(not bad, "P8", "zero-census", "no inline asm, FFI call, abort, unreachable_unchecked or get_unchecked on the parse path", "",
               how="0 occurrences in %d instances" % len(cl), why=str(bad[:5]))
-    ctx.check(saw_add, "P8", "positive-control", "the census sees the known raw-pointer `add` calls", "", how="found", why="census is blind")
+    ctx.check(saw_add, "P8", "positive-control", "the census sees the raw-pointer method calls of the parse path (`add` / `cast` / ..)", "", how="found", why="census is blind")
     muts = [s for s in F.statics if s.get("mut") or not s.get("freeze")]
     ctx.check(not muts, "P6", "statics", "no `static mut` and no interior-mutable static in the three crates", "", how="%d statics, none mutable" % len(F.statics), why=str(muts))
